@@ -108,6 +108,10 @@ type ErrSpec struct {
 	// (a handler that proxies to a backend whose connection broke): eof |
 	// unexpected-eof | closed-pipe | net-closed | epipe | econnreset
 	Wraps string `json:"wraps,omitempty"`
+	// Kind: "" (built from the fields above) | "slice" (a slice-typed, hence
+	// unhashable, error value carrying Msg) | "reused" (the session's one error
+	// object, whose text is replaced for every failure); both undecorated
+	Kind string `json:"kind,omitempty"`
 	// Join: the error is errors.Join(this, Join...) - several causes, one failure
 	Join []*ErrSpec `json:"join,omitempty"`
 }
@@ -116,6 +120,11 @@ type ErrSpec struct {
 func (e *ErrSpec) Build() error {
 	if e == nil {
 		return nil
+	}
+	if e.Kind == "slice" {
+		// an error whose dynamic type is a slice (like go/scanner.ErrorList): not
+		// comparable, not hashable - and an error like any other
+		return errList{errors.New(e.Msg)}
 	}
 	var err error = errors.New(e.Msg)
 	if sent := wrappedSentinel(e.Wraps); sent != nil {
@@ -165,6 +174,35 @@ func (e *ErrSpec) Build() error {
 	return err
 }
 
+// errList is a slice-typed error.
+type errList []error
+
+func (l errList) Error() string {
+	var parts []string
+	for _, e := range l {
+		parts = append(parts, e.Error())
+	}
+	return strings.Join(parts, "; ")
+}
+
+// mutableErr is the one error object a session keeps and fills in anew for
+// every failure (ErrSpec.Kind "reused").
+type mutableErr struct{ msg string }
+
+func (m *mutableErr) Error() string { return m.msg }
+
+// buildErr builds the error of a spec for this connection.
+func (c *connState) buildErr(e *ErrSpec) error {
+	if e != nil && e.Kind == "reused" {
+		if c.reusedErr == nil {
+			c.reusedErr = &mutableErr{}
+		}
+		c.reusedErr.msg = e.Msg
+		return c.reusedErr
+	}
+	return e.Build()
+}
+
 // ExpectedMessage is the text the ErrorResponse must carry in its M field.
 func wrappedSentinel(name string) error {
 	switch name {
@@ -185,6 +223,9 @@ func wrappedSentinel(name string) error {
 }
 
 func (e *ErrSpec) ExpectedMessage() string {
+	if e.Kind != "" {
+		return e.Msg
+	}
 	msg := e.Msg
 	if sent := wrappedSentinel(e.Wraps); sent != nil {
 		msg = e.Msg + ": " + sent.Error()
@@ -583,9 +624,17 @@ func (rt *Runtime) parseFn(ctx context.Context, query string) (wire.PreparedStat
 	prog := rt.programFor(query)
 	if prog.ParseErr != nil && !(prog.Partial && len(prog.Stmts) > 0) {
 		c.rec("parse-ret", "err")
-		return nil, prog.ParseErr.Build()
+		return nil, c.buildErr(prog.ParseErr)
 	}
 	key := ProgramKey(query)
+	if rt.C.Server.MemoParser && prog.ParseErr == nil {
+		// an application that keeps what it has parsed: the same query text gets
+		// the very same PreparedStatements value again (per connection)
+		if out, ok := c.parsed[query]; ok {
+			c.rec("parse-ret", fmt.Sprintf("%d", len(out)))
+			return out, nil
+		}
+	}
 	out := make(wire.PreparedStatements, 0, len(prog.Stmts))
 	for i, sp := range prog.Stmts {
 		sp := sp
@@ -609,7 +658,13 @@ func (rt *Runtime) parseFn(ctx context.Context, query string) (wire.PreparedStat
 	}
 	if prog.ParseErr != nil {
 		c.rec("parse-ret", "err")
-		return out, prog.ParseErr.Build()
+		return out, c.buildErr(prog.ParseErr)
+	}
+	if rt.C.Server.MemoParser {
+		if c.parsed == nil {
+			c.parsed = map[string]wire.PreparedStatements{}
+		}
+		c.parsed[query] = out
 	}
 	c.rec("parse-ret", fmt.Sprintf("%d", len(out)))
 	return out, nil
@@ -906,7 +961,7 @@ func (rt *Runtime) runStmt(ctx context.Context, key string, idx int, sp *StmtPro
 			rt.K.Yield(c.task, "op.yield")
 			c.rec("op", fmt.Sprintf("%d yield", oi))
 		case "return":
-			return op.Err.Build()
+			return c.buildErr(op.Err)
 		case "retlast":
 			return last
 		case "finishcopy":
